@@ -69,9 +69,16 @@ def gen_history(seed, case, nops, profile, oracles=(), on_step=None):
     w = World()
     ops, dumps, fails = [], [], []
     g = Gen(rng, w, profile)
+    # a share of the histories starts from a structured design (several multi-port definitions,
+    # several instances of each, nets shared between instances) so that edits land in rich contexts
+    prefix = []
+    if rng.random() < 0.4:
+        import netgen
+        prefix, _info = netgen.build(rng, depth=rng.choice([1, 1, 2]), max_leaf=2, max_children=3,
+                                     unnamed_rate=0.2, unnamed_cables=True)
     try:
-        for j in range(nops):
-            op = g.next_op()
+        for j in range(nops + len(prefix)):
+            op = prefix[j] if j < len(prefix) else g.next_op()
             pre = on_step.pre(w, op) if on_step else None
             out = w.apply(op)
             ops.append(op)
